@@ -60,7 +60,7 @@ func c20Enumerate(t *testing.T, w *sim.Worker) {
 		if cr.V != nil || census.Files == 0 {
 			continue
 		}
-		tape := cr.T.Values()
+		tape, stape := cr.T.Values(), cr.T.SchedValues()
 		var faults []vsFault
 		for j := 0; j < census.Files; j++ {
 			faults = append(faults, vsFault{Kind: "nobench", File: j}, vsFault{Kind: "create", File: j}, vsFault{Kind: "close", File: j}, vsFault{Kind: "abort", File: j})
@@ -88,7 +88,7 @@ func c20Enumerate(t *testing.T, w *sim.Worker) {
 			}
 			b, _ := json.Marshal(f)
 			w.Param = string(b)
-			r := w.Exec(sim.ReplayTape(tape), false)
+			r := w.Exec(sim.ReplayTape2(tape, stape), false) // the census run's schedule
 			positions++
 			perKind[f.Kind]++
 			w.Res.Extra["enumerated-fault-positions"]++
@@ -100,9 +100,17 @@ func c20Enumerate(t *testing.T, w *sim.Worker) {
 			if !w.Handle(r, 1<<41+sc*100000+uint64(i), seed) {
 				return
 			}
+			if !quick {
+				// the same scenario and fault under a freshly drawn schedule (the workload stream is replayed unchanged)
+				r2 := w.Exec(sim.ReplayWithFreshSchedule(tape, sim.Mix(seed, "schedule", uint64(i))), false)
+				w.Res.Extra["enumerated-fault-positions-under-drawn-schedule"]++
+				if !w.Handle(r2, 1<<42+sc*100000+uint64(i), seed) {
+					return
+				}
+			}
 		}
 	}
 	w.Param = ""
 	w.Res.ExtraInfo["cov_enumeration"] = map[string]any{"scenarios": scenarios, "positions": positions, "per_kind": perKind,
-		"exhaustive_positions_per_scenario": complete, "note": "positions of the last attempt of each scenario, after its history of earlier uploads; recorded schedule of the census run"}
+		"exhaustive_positions_per_scenario": complete, "note": "positions of the last attempt of each scenario, after its history of earlier uploads; each position under the census run's schedule and (thorough tier) once more under a freshly drawn schedule"}
 }
